@@ -241,7 +241,32 @@ func vMixCase(n string) string {
 }
 
 // vC07Legacy: the real proxy with legacy header flags; sessions from cookie, basic auth and none (bypass).
+// vC07LegacyConversion: every combination of the nine legacy header flags (with and without a basic-auth password)
+// through the real conversion, against the model's lists.
+func vC07LegacyConversion(t *testing.T, out *vEmitter) {
+	for _, pw := range []string{"legacy-pw", ""} {
+		for mask := 0; mask < 512; mask++ {
+			bit := func(i int) bool { return mask&(1<<i) != 0 }
+			lo := options.NewLegacyOptions()
+			lh := &lo.LegacyHeaders
+			lh.PassBasicAuth, lh.PassAccessToken, lh.PassUserHeaders, lh.PassAuthorization = bit(0), bit(1), bit(2), bit(3)
+			lh.SetBasicAuth, lh.SetXAuthRequest, lh.SetAuthorization = bit(4), bit(5), bit(6)
+			lh.PreferEmailToUser, lh.SkipAuthStripHeaders = bit(7), bit(8)
+			lh.BasicAuthPassword = pw
+			lo.LegacyUpstreams.Upstreams = []string{"static://200"}
+			conv, err := lo.ToOptions()
+			if err != nil {
+				t.Fatalf("legacy conversion: %v", err)
+			}
+			out.Case("legacy-conversion", true, vL(vHdrCfgSX(conv.InjectRequestHeaders), vHdrCfgSX(conv.InjectResponseHeaders)),
+				vL("legacy_headers", vBool(bit(0)), vBool(bit(1)), vBool(bit(2)), vBool(bit(3)), vBool(bit(4)), vBool(bit(5)), vBool(bit(6)), vBool(bit(7)), vBool(bit(8)), vS(pw)))
+			out.Stat("legacy_conversions", 1)
+		}
+	}
+}
+
 func vC07Legacy(t *testing.T, out *vEmitter) {
+	vC07LegacyConversion(t, out)
 	htp := vWriteFile("c07-htpasswd", "htuser:{SHA}"+base64.StdEncoding.EncodeToString(vSHA1([]byte("htpass")))+"\n")
 	n := 0
 	for mask := 0; mask < 512; mask++ {
